@@ -81,3 +81,71 @@ func TestC07Kept(t *testing.T) {
 		}
 	}
 }
+
+type keptImpl struct{ n int }
+
+func (k *keptImpl) Get(s string) int {
+	if k == nil {
+		return -404
+	}
+	return k.n
+}
+func (k *keptImpl) Put(s string, v int) int { return v }
+
+type keptFn func(string) int
+
+func (f keptFn) Get(s string) int        { return -405 }
+func (f keptFn) Put(s string, v int) int { return v }
+
+// TestC07PreMockValues: what the variable held before the mock - nil, a real object, a typed nil pointer, a nil func
+// value of a type that implements the interface - is what it holds again after Reset, word for word.
+func TestC07PreMockValues(t *testing.T) {
+	rep := vmon.NewReport("C07")
+	defer rep.Write()
+	obj := &keptImpl{n: 9}
+	pre := []struct {
+		name string
+		val  keptSvc
+		get  int
+	}{
+		{"nil interface", nil, 0},
+		{"object", obj, 9},
+		{"typed nil pointer", (*keptImpl)(nil), -404},
+		{"nil func value", keptFn(nil), -405},
+	}
+	for _, p := range pre {
+		for _, form := range []string{"Apply", "As.Return"} {
+			for _, end := range []string{"Reset", "Reset twice"} {
+				v := p.val
+				before := *(*[2]uintptr)(unsafe.Pointer(&v))
+				b := mocker.Create()
+				c := map[string]interface{}{"pre_mock_value": p.name, "form": form, "end": end}
+				rep.Journal(map[string]interface{}{"part": "pre-mock-values", "pre": p.name, "form": form, "end": end})
+				if form == "Apply" {
+					b.Interface(&v).Method("Get").Apply(func(ctx *mocker.IContext, k string) int { return 77 })
+				} else {
+					b.Interface(&v).Method("Get").As(func(ctx *mocker.IContext, k string) int { return 0 }).Return(77)
+				}
+				rep.Eval(2)
+				if got := v.Get("x"); got != 77 {
+					rep.Violate("C07/mocked-method-not-reached", fmt.Sprintf("variable holding %s before the mock, %s: Get = %d want 77", p.name, form, got), c)
+				}
+				b.Reset()
+				if end == "Reset twice" {
+					b.Reset()
+				}
+				after := *(*[2]uintptr)(unsafe.Pointer(&v))
+				if after != before {
+					rep.Violate("C07/reset-did-not-restore", fmt.Sprintf("variable holding %s before the mock (%s, %s): words %#x after, %#x before", p.name, form, end, after, before), c)
+					continue
+				}
+				if p.val != nil {
+					if got := v.Get("x"); got != p.get {
+						rep.Violate("C07/reset-did-not-restore", fmt.Sprintf("variable holding %s before the mock: after Reset Get = %d want %d", p.name, got, p.get), c)
+					}
+				}
+				rep.Class(fmt.Sprintf("pre-mock/%s/%s/%s", p.name, form, end))
+			}
+		}
+	}
+}
